@@ -37,6 +37,8 @@ pub struct Scenario {
     pub fd: Option<Vec<(usize, usize, usize, bool)>>,
     /// finish by feeding everything, closing, and receiving until end-of-stream
     pub drain: bool,
+    /// log transport reads in accumulated form (huge streams)
+    pub quiet: bool,
 }
 
 pub fn bytes_to_json(b: &[u8]) -> Value {
@@ -78,7 +80,7 @@ impl Scenario {
                 Step::Close => json!(["close"]),
                 Step::ReadErr => json!(["readerr"]),
             }).collect::<Vec<_>>(),
-            "drain": self.drain,
+            "drain": self.drain, "quiet": self.quiet,
             "fd": self.fd.as_ref().map(|v| v.iter().map(|(l,b,t,o)| json!({"lead":l,"body":b,"trail":t,"ok":o})).collect::<Vec<_>>()),
         })
     }
@@ -103,6 +105,7 @@ impl Scenario {
                 })
                 .collect(),
             drain: v.get("drain").and_then(|d| d.as_bool()).unwrap_or(true),
+            quiet: v.get("quiet").and_then(|d| d.as_bool()).unwrap_or(false),
             fd: v.get("fd").and_then(|f| f.as_array()).map(|a| {
                 a.iter()
                     .map(|f| {
@@ -145,6 +148,8 @@ fn hook_state(conn: &Connection<Sock>) -> (usize, usize, usize) {
 pub fn run<T: Target>(sc: &Scenario, stats: &mut Stats) {
     let stream = sc.stream();
     let wire: Wire = new_wire(0);
+    wire.borrow_mut().quiet_chunks = sc.quiet;
+    let mut reported = 0usize;
     let mut conn = Connection::new(Sock(wire.clone()));
     // reset event with the expected result of every frame (isolated decode)
     let mut end = 0usize;
@@ -220,7 +225,21 @@ pub fn run<T: Target>(sc: &Scenario, stats: &mut Stats) {
                     ev(json!({"ev":"stuck"}));
                     break 'outer;
                 }
-                match poll_once(fut.as_mut()) {
+                let polled = match std::panic::catch_unwind(std::panic::AssertUnwindSafe(|| poll_once(fut.as_mut()))) {
+                    Ok(p) => p,
+                    Err(_) => {
+                        ev(json!({"ev":"recv","cls":"panic","canon":"","blen":0,"rp":0,"mp":0}));
+                        break 'outer;
+                    }
+                };
+                if sc.quiet {
+                    let d = wire.borrow().delivered;
+                    if d > reported {
+                        ev(json!({"ev":"chunk","c":0,"n":d - reported}));
+                        reported = d;
+                    }
+                }
+                match polled {
                     Poll::Ready(o) => break Some(o),
                     Poll::Pending => {
                         ev(json!({"ev":"pending"}));
@@ -470,6 +489,7 @@ pub fn gen_scenario(r: &mut Rng, sid: String, cancels: bool, valid_only: bool) -
         steps,
         fd: None,
         drain: true,
+        quiet: false,
     }
 }
 
@@ -509,6 +529,7 @@ pub fn gen_all_cuts(r: &mut Rng, base: &str, out: &mut Vec<Scenario>, pairs: boo
                 steps,
                 fd: None,
                 drain: true,
+                quiet: false,
             }
         };
         out.push(mk(&[c1], format!("{base}-c{c1}")));
@@ -588,6 +609,7 @@ pub fn from_model_behaviour(v: &Value, sid: String, target: &str) -> Scenario {
         steps,
         fd: Some(fd),
         drain: true,
+        quiet: false,
     }
 }
 
@@ -623,6 +645,7 @@ pub fn gen_tiny(r: &mut Rng, sid: String, cancels: bool) -> Scenario {
         steps,
         fd: Some(fd),
         drain: true,
+        quiet: false,
     }
 }
 
@@ -695,6 +718,7 @@ pub fn gen_size_sweep(r: &mut Rng, out: &mut Vec<Scenario>, dense: bool) {
                 steps,
                 fd: None,
                 drain: true,
+                quiet: false,
             });
         }
     }
@@ -709,6 +733,42 @@ pub fn gen_size_sweep(r: &mut Rng, out: &mut Vec<Scenario>, dense: bool) {
             steps: vec![Step::Feed(30), Step::Poll],
             fd: None,
             drain: true,
+        quiet: false,
         });
     }
+}
+
+/// C17 inbound with the production limit: a frame just below the limit (accepted), one that
+/// reaches it (refused), an unterminated stream (refused); reads logged in accumulated form.
+pub fn gen_prod_limit(out: &mut Vec<Scenario>) {
+    let maxb = crate::buffer_max();
+    let step = crate::buffer_step();
+    let prefix = "{\"method\":\"t.Echo\",\"parameters\":{\"i\":7,\"pad\":\"";
+    let suffix = "\"}}";
+    for (j, total) in [maxb - 1, maxb - step, maxb, maxb + 1].iter().enumerate() {
+        let doc_len = total - 1;
+        let frame = format!("{prefix}{}{suffix}", "s".repeat(doc_len - prefix.len() - suffix.len())).into_bytes();
+        out.push(Scenario {
+            sid: format!("P{j}"),
+            target: "call_enum".into(),
+            // the two sizes below the limit arrive alone (they must be accepted); the others are
+            // followed by a pipelined call
+            frames: if j < 2 { vec![frame] } else { vec![frame, b"{\"method\":\"t.Ping\"}".to_vec()] },
+            tail: vec![],
+            steps: vec![Step::Feed(1000), Step::Poll],
+            fd: None,
+            drain: true,
+            quiet: true,
+        });
+    }
+    out.push(Scenario {
+        sid: "PU".into(),
+        target: "call_enum".into(),
+        frames: vec![b"{\"method\":\"t.Ping\"}".to_vec()],
+        tail: vec![b'u'; maxb + 300],
+        steps: vec![Step::Feed(30), Step::Poll],
+        fd: None,
+        drain: true,
+        quiet: true,
+    });
 }
